@@ -1256,6 +1256,8 @@ package pfcp
 //@   at call UpdateNodeID:
 //@     unfold srvWF(s)
 //@     unfold registered(s)
+//@   at call NodeID:
+//@     assert [first] DP == old(DP) && CREATED == old(CREATED)
 //@   at call NewSessionModificationResponse#1:
 //@     assert [nfseid]  arg2 == 0 && arg3 == req.Header.SequenceNumber
 //@     assert [nfcause] len(arg5) == 1 && arg5[0] == ie.NewCause(ie.CauseSessionContextNotFound)
